@@ -84,11 +84,18 @@ def make_probe(rnd, op=None):
     for _ in range(50):
         large, vr = rnd.random() < 0.4, rnd.random() < 0.4
         r = rnd.random()
-        if r < 0.6:
+        if r < 0.5:
             g = G.below(rnd, large, vr, lo=0.4)
-        elif r < 0.8:
+        elif r < 0.65:
             g = G.near_threshold(rnd)
             g = (g[0], g[1]) if g else None
+        elif r < 0.83:
+            # vivid text on the gamut surface against an arbitrary mid-tone background (mostly not repairable): the pairs whose
+            # result is decided by the chroma-descent phase rather than by the lightness search (about 1 call in 13 here, 1 in
+            # 1,500 among uniform pairs)
+            t = [0, rnd.randrange(225, 256), rnd.randrange(256)]
+            rnd.shuffle(t)
+            g = (tuple(t), tuple(rnd.randrange(20, 200) for _ in range(3)))
         else:
             g = (G.uniform(rnd), G.uniform(rnd))
         if not g:
@@ -380,6 +387,39 @@ def probe_desc(p):
     return f"{p['op']}({p['text']!r} on {p['bg']!r}, large={p['large']}, mode={p['mode']}, very_readable={p['vr']})"
 
 
+def descent_decided_pairs(lib, rnd, want, tries=60):
+    """Vivid-text pairs whose result is decided by the chroma-descent phase (found by asking the library twice, once with that phase
+    switched off through attribute replacement; a selection heuristic only - when the routine has another name, unselected pairs of the
+    same class are returned)."""
+    opt = lib.mod("optimisation")
+    name = "gradient_descent_oklch"
+    orig = getattr(opt, name, None)
+    out, spare = [], []
+    for _ in range(tries):
+        if len(out) >= want:
+            break
+        t = [0, rnd.randrange(225, 256), rnd.randrange(256)]
+        rnd.shuffle(t)
+        b = [rnd.randrange(20, 200) for _ in range(3)]
+        p = {"op": "fix", "text": list(t), "tk": "tuple", "bg": list(b), "bk": "tuple", "large": rnd.random() < 0.5, "mode": rnd.randrange(3),
+             "vr": rnd.random() < 0.5, "t": list(t), "b": list(b)}
+        spare.append(p)
+        if orig is None:
+            continue
+        try:
+            a = run_probe(lib, p)
+            setattr(opt, name, lambda *args, **kw: None)
+            try:
+                c = run_probe(lib, p)
+            finally:
+                setattr(opt, name, orig)
+        except Exception:
+            continue
+        if a != c:
+            out.append(p)
+    return (out + spare)[:want]
+
+
 def threads(shard, rec, lib, scratch):
     rnd = G.rng("c15t", shard["seed"], shard["idx"])
     old_si = sys.getswitchinterval()
@@ -424,7 +464,14 @@ def threads(shard, rec, lib, scratch):
                 if g:
                     pool.append({"op": "fix", "text": list(g[0]), "tk": "tuple", "bg": list(g[1]), "bk": "tuple", "large": False, "mode": 1, "vr": False,
                                  "t": list(g[0]), "b": list(g[1])})
+            dd = descent_decided_pairs(lib, rnd, 3)
+            rec.count("descent_decided_probes_in_thread_pools", len(dd))
+            pool += dd
             plans = [[pool[rnd.randrange(len(pool))] for _ in range(nops)] for _ in range(nthreads)]
+            for k, p in enumerate(dd):        # every thread meets at least one of them
+                for ti in range(nthreads):
+                    if (ti + k) % 3 == 0:
+                        plans[ti][(ti + k) % nops] = p
             ref = {json.dumps(p, sort_keys=True): run_probe(lib, p) for p in pool}   # sequential reference
             results = [[None] * nops for _ in range(nthreads)]
             log = []
